@@ -1,6 +1,6 @@
 (** C04 — every query is either fully honoured or rejected with a diagnostic. *)
 From Coq Require Import List ZArith NArith Bool Lia.
-From AG Require Import Str F64 Value Json Expr Ops Pipeline Filter Grammar Print Grammar_proofs Spelling_proofs QueryRoundtrip.
+From AG Require Import Str F64 Value Json Expr Ops Pipeline Filter Grammar Print Grammar_proofs Spelling_proofs QueryRoundtrip Static_proofs.
 From AG Require Generated.
 Import ListNotations.
 Open Scope string_scope.
@@ -86,6 +86,29 @@ Proof. exact where_constant_non_boolean_rejected. Qed.
 Theorem C04_static_unknown_function : forall name args,
   is_known_func name = false -> stage_ok (SWhere (ECall name args)) = false.
 Proof. exact unknown_function_rejected_in_where. Qed.
+(** the static checks reach every sub-expression of every stage: an unknown function is rejected
+    wherever it sits (operand, argument, either branch of an [if] with a literal condition,
+    aggregate argument, group key, sort key), and the whole query with it *)
+Theorem C04_static_unknown_function_anywhere : forall (s : stage) (e : expr) (f : str) (args : list expr),
+  In e (stage_exprs s) -> subexpr (ECall f args) e -> is_known_func f = false -> stage_ok s = false.
+Proof. exact unknown_function_anywhere_rejects_stage. Qed.
+Print Assumptions C04_static_unknown_function_anywhere.
+Theorem C04_static_error_node_anywhere : forall (s : stage) (e : expr),
+  In e (stage_exprs s) -> subexpr EError e -> stage_ok s = false.
+Proof. exact error_node_anywhere_rejects_stage. Qed.
+Theorem C04_unknown_function_rejects_query : forall (q : str) (lq : lquery) (o : lop) (l : list stage) (s : stage)
+    (e : expr) (f : str) (args : list expr),
+  parse_query q = Some lq -> In o (lq_ops lq) -> check_lop true o = Some l -> In s l ->
+  In e (stage_exprs s) -> subexpr (ECall f args) e -> is_known_func f = false ->
+  accepts q = None.
+Proof. exact unknown_function_anywhere_rejects_query. Qed.
+Print Assumptions C04_unknown_function_rejects_query.
+Example C04_unknown_function_in_dead_branch :
+  accepts (lit "* | json | if(true, k, nosuchfn(k)) as x") = None /\
+  accepts (lit "* | json | if(false, nosuchfn(k), k) as x") = None /\
+  accepts (lit "* | json | count(if(true, k, nosuchfn(k)) > 1) as n") = None /\
+  accepts (lit "* | json | if(true, k, length(k)) as x") <> None.
+Proof. exact unknown_function_in_dead_branch. Qed.
 Theorem C04_static_timeslice_duration : forall e n, check_lop true (LInline (LTimeslice e None n)) = None.
 Proof. exact timeslice_without_duration_rejected. Qed.
 Theorem C04_static_count_distinct_arity : forall fns keys n,
